@@ -74,10 +74,16 @@ func (args *AtDateAndTimeArgs) AtTime(now gotime.Time, config app.Config) (klog.
 	if today.IsEqualTo(date) {
 		return time, nil
 	} else if today.PlusDays(-1).IsEqualTo(date) {
-		shiftedTime, _ := time.Plus(klog.NewDuration(24, 0))
+		shiftedTime, err := time.Plus(klog.NewDuration(24, 0))
+		if err != nil {
+			return nil, unrepresentableTimeError()
+		}
 		return shiftedTime, nil
 	} else if today.PlusDays(1).IsEqualTo(date) {
-		shiftedTime, _ := time.Plus(klog.NewDuration(-24, 0))
+		shiftedTime, err := time.Plus(klog.NewDuration(-24, 0))
+		if err != nil {
+			return nil, unrepresentableTimeError()
+		}
 		return shiftedTime, nil
 	}
 	return nil, app.NewErrorWithCode(
@@ -100,7 +106,27 @@ func (args *AtDateAndTimeArgs) TimeFormat(config app.Config) reconciling.Reforma
 }
 
 func (args *AtDateAndTimeArgs) WasAutomatic() bool {
-	return args.Date == nil && args.Time == nil
+	return args.Date == nil && !args.Yesterday && !args.Tomorrow && args.Time == nil
+}
+
+// unrepresentableTimeError is for when the (rounded) current time cannot be expressed
+// relative to the date of the record, e.g. `24:00` in yesterday’s record.
+func unrepresentableTimeError() app.Error {
+	return app.NewErrorWithCode(
+		app.LOGICAL_ERROR,
+		"Impossible time",
+		"The current time cannot be represented in a record at that date. Please specify a time value explicitly",
+		nil,
+	)
+}
+
+// ShiftToTomorrow expresses a time of today relative to yesterday’s date.
+func ShiftToTomorrow(time klog.Time) (klog.Time, app.Error) {
+	shiftedTime, err := time.Plus(klog.NewDuration(24, 0))
+	if err != nil {
+		return nil, unrepresentableTimeError()
+	}
+	return shiftedTime, nil
 }
 
 type DiffArgs struct {
